@@ -38,17 +38,18 @@ def word_counts(fmt, out, words):
 
 def gen_docs(tier, seed):
     r = tlc.run("LineKinds", GEN % (2, "FALSE"), workers=8)
-    table = r.printed[0]
-    seqs = [d for d in r.printed[1:]]
+    istable = lambda v: isinstance(v, list) and v and isinstance(v[0], dict)
+    table = [v for v in r.printed if istable(v)][0]
+    seqs = [d for d in r.printed if not istable(d)]
     seqs += [[i] for i in range(1, len(table) + 1)]
     r3 = tlc.run("LineKinds", GEN % (3, "FALSE"), workers=8)
-    seqs3 = r3.printed[1:]
+    seqs3 = [d for d in r3.printed if not istable(d)]
     rs = tlc.run("LineKinds", GEN % (12, "TRUE"), workers=4, simulate=(100 if tier == "quick" else 1000), depth=13, seed=seed, timeout=600)
-    sim = rs.printed[1:]
+    sim = [d for d in rs.printed if not istable(d)]
     seqs4 = []
     if tier == "thorough":
         r4 = tlc.run("LineKinds", GEN % (4, "TRUE"), workers=4, simulate=15000, depth=5, seed=seed + 1, timeout=900)
-        seqs4 = uniq(r4.printed[1:])
+        seqs4 = uniq([d for d in r4.printed if not istable(d)])
     return table, seqs, seqs3, sim, seqs4
 
 
